@@ -10,26 +10,40 @@ CONFIG = dict(
                "session invariant), convergence (the flushed neighbour view is exactly the export of the last delivered paths "
                "under the current policy = what a brand-new session is sent) and withdraw_on_wire, each for sessions without "
                "add-path (best path, wire path id 0) and for add-path sessions (top-N window after the per-peer filters, one "
-               "wire path id per local path id, theorems *_addpath); and the master theorem, both modes: the C01 "
-               "reference checker (view after quiescence and flush = fresh dump, as sets of prefix / path-id / attributes / next "
-               "hop) accepts every run of the composed model whose hypotheses, computed along the run, hold.  The full-strength "
+               "wire path id per local path id, theorems *_addpath); the id part of admissibility derived from the RIB model "
+               "(*_change_id_admissible: the id of a change emitted by Table::insert / remove / drop on a consistent shard "
+               "belongs to its prefix and to no other); and the master theorem, both modes: the C01 reference checker (at "
+               "EVERY flush that leaves the channel empty and at the end of the history: flushed view = fresh dump, as sets of "
+               "prefix / path-id / attributes / next hop) accepts every run of the composed model whose hypotheses, evaluated "
+               "along the run, hold.  The full-strength "
                "statement C01_full is kept as a definition and refuted for the current code by a kernel-evaluated witness "
-               "(finding S36).  The model is tied to the code by running the REAL TableManager (1-3 shards) -> on_established "
-               "-> handle_prefix_update / do_route_refresh -> PendingTx::drain_messages -> PeerCodec::encode_to on generated "
-               "histories, decoding the real bytes with an independent UPDATE reader into a mirror, establishing a second "
-               "brand-new session for the fresh dump, and diffing every flush against the model, with the reference checker as "
-               "oracle on the real observations.",
+               "(finding S36).  The model is tied to the code by running the REAL TableManager (1-3 shards, IPv4 and IPv6 RIBs) "
+               "-> on_established -> the real run_select (NlriChange / SoftResetOut arms: handle_prefix_update, "
+               "do_route_refresh with the neighbour's own and the global export policy) -> the real flush_tx over a loopback "
+               "TCP connection on generated histories, for one or two observing neighbours on the same fan-out, decoding the "
+               "real bytes with an independent UPDATE reader into a mirror, establishing a brand-new session for the fresh "
+               "dump at every quiet flush and at the end, and diffing every flush against the model, with the reference "
+               "checker as oracle on the real observations.",
     level_note="Trusted: Lean kernel; axioms propext/Quot.sound; the hand-written model (checked only by the correspondence "
-               "stream); harness glue (ToPeerEvent dispatch and the drain+encode loop transcribed from run_select / flush_tx, "
-               "the tokio channel replaced by a FIFO, the independent UPDATE reader).  The master theorem's hypothesis okRun is "
-               "computed, not assumed: no LLGR stale period, every delivered change admissible for the session's view (ids stable "
+               "stream); harness glue (every ToPeerEvent is taken from the channel register_peer created and re-sent, in the "
+               "order and number the case dictates, on a channel the session polls - the arm of run_select that handles it and "
+               "flush_tx are the real ones; new_session writes effective_max / families / cluster-id / export_ctx directly "
+               "instead of negotiating them (C09's wire cases and C16 cover that derivation); the fresh-dump session is drained "
+               "and encoded without a socket; the independent UPDATE reader).  WHAT STAYS A HYPOTHESIS EVALUATED ALONG THE RUN "
+               "(okRun, evaluated by the driver on every generated case; not derived from the RIB model in Pipeline.lean): "
+               "(1) bestSame / anySame / pidSame of every delivered change, i.e. that the flags and the path list of a change "
+               "describe the difference to the previous visible path list (C06's statement for this RIB model; only the id "
+               "part, idFree / idKept, is proved from Shard.insert / remove / drop); (2) that the session's view lags the RIB "
+               "by exactly the queued changes; (3) at every judged point: the last delivered paths are the RIB snapshot's "
+               "(viewMatchChk) and the RIB holds announced prefixes only (this is clause 1 of the checker, assumed for the "
+               "dump).  In detail okRun says: no LLGR stale period, every delivered change admissible for the session's view (ids stable "
                "and unshared; without add-path: best_changed = false only when the best path is unchanged; with add-path: "
                "any_changed = false only when the visible paths are unchanged, a path that keeps its local id without being "
                "reported as replaced is the same path, path ids unique per destination - what C06 states about the change "
                "stream), soft resets walking a snapshot of the view's destinations, no policy change left without its soft "
                "reset, final RIB snapshot consistent with the view (all visible paths for add-path, best paths otherwise); the "
                "driver reports any generated in-order history without LLGR period on which it fails (none in 200 000, send-max "
-               "1-3).  Import-policy filtered paths and next-hop flaps are ordinary changes for these theorems (the RIB model "
+               "1-3, both neighbours).  Import-policy filtered paths and next-hop flaps are ordinary changes for these theorems (the RIB model "
                "hides such paths from the change).  NOT covered by theorems, only by the correspondence stream and the oracle: "
                "histories in which a soft reset overtakes queued changes (open finding S36) and LLGR stale periods (S16, "
                "repaired: with 2+ paths of the stale peer on a prefix the re-advertisement takes several changes, in between "
@@ -45,6 +59,9 @@ CONFIG = dict(
         "Rbgp.Export.Props01.destid_stable_insert",
         "Rbgp.Export.Props01.destid_stable_remove",
         "Rbgp.Export.Props01.destid_stable_drop",
+        "Rbgp.Export.Props01.insert_change_id_admissible",
+        "Rbgp.Export.Props01.remove_change_id_admissible",
+        "Rbgp.Export.Props01.drop_change_id_admissible",
         "Rbgp.Export.Props01.export_invariant_establish",
         "Rbgp.Export.Props01.export_invariant_deliver",
         "Rbgp.Export.Props01.export_invariant_flush",
@@ -77,17 +94,23 @@ CONFIG = dict(
          "periods, soft reset with a new policy, deliver k queued events, flush; biased sequences: withdraw the last path of a prefix and announce a prefix the RIB does not hold "
          "before the flush (destination-id re-use, optionally with a delivery or a soft reset in between), 2-3 sources on one "
          "prefix (add-path window crossings, best-path changes, filtered head); 0-4 announcements before establishment (the "
-         "dump); 1.7 % syntactically damaged cases.  At the end everything is delivered and flushed and a brand-new "
-         "session is established on the same RIB.  Non-trivial = the final view is not empty; distinct = distinct case line",
+         "dump); one case in four a global export policy next to the neighbour's own one, `reset` / `greset` replacing "
+         "either, each followed by its soft reset OUT; one case in three (suitable receivers) 1-3 IPv6 prefixes next to "
+         "the IPv4 ones; one case in three a second observing neighbour with another role, send-max and own policy on the "
+         "same fan-out; one single-shard case in thirty 66-73 extra prefixes announced before establishment (destination "
+         "ids beyond 64); 1.7 % syntactically damaged cases.  A brand-new session is established on the same RIB at every "
+         "flush that leaves the channel empty and at the end (everything delivered and flushed).  Non-trivial = the final view is not empty; distinct = distinct case line",
     expect_tokens=["(reuse 1)", "(reuse 2)", "(overtaken 0)", "(overtaken 1)", "(final)", "(final (", "(dump (", "(flushes (m (",
+                   "(pair (obs", "(quiet (q ", "(v6 ", "167985152 24",
                    "(bad-case)", "(words 8 77)", "(val 4 7)", "(v4 3232235999)", "(val 9 ", "(aspath (3 65001)", " 24 2 (", " 24 3 ("],
     trusted_base=["model lean/Rbgp/Export/Pipeline.lean (+ Model.lean) of table/src/lib.rs (IdAllocator, Destination, Table::insert / "
                   "remove / drop, collect_loc_rib_paths_limited, impl Ord for RibEntry on the attribute families used), "
                   "daemon/src/table_manager.rs (fan-out), daemon/src/event/mod.rs (on_established, handle_prefix_update, "
                   "do_route_refresh), daemon/src/event/export.rs, daemon/src/peer_tx.rs",
-                  "harness/daemon/c01.rs: dispatch of ToPeerEvent and the drain+encode loop are transcribed from run_select / "
-                  "flush_tx; the tokio mpsc channel is drained into a FIFO after every RIB operation (changes of one bulk "
-                  "operation put in prefix order); the independent UPDATE reader (RFC 4271/4760/7911: IPv4 + IPv6 unicast, "
+                  "harness/daemon/c01.rs: the channel register_peer created is drained into a FIFO after every RIB operation "
+                  "(changes of one bulk operation put in prefix order) and re-sent event by event on the channel the session "
+                  "polls; run_select (its peer-event arms and, through the socket arm, flush_tx) is the real one; the "
+                  "independent UPDATE reader (RFC 4271/4760/7911: IPv4 + IPv6 unicast, "
                   "add-path) and its canonical attribute printing; a key announced twice with different contents in one flush "
                   "is reported as `amb` on both sides (the survivor depends on hash-map iteration order)",
                   "the prefix -> shard table of checks/c01.py (FNV hash of the derived Hash of Nlri), re-checked by the "
@@ -100,6 +123,11 @@ CONFIG = dict(
                            "RTC filter, BMP, kernel FIB, prefix limits: held constant; the import policy is one reject-ORIGIN statement "
                            "(FLAG_FILTERED), next-hop tracking is driven through update_nexthop_validity directly"],
     assumptions=["policy changes take effect in the session at once and their soft reset is queued, as in the daemon",
+                 "one serialisation of RIB operations, deliveries and flushes per case: no change is produced while a delivery "
+                 "or a dump is in progress, so the atomicity of register_peer (dump of every shard and registration of the "
+                 "event channel under that shard's lock) is not exercised",
+                 "IPv6 prefixes only towards receivers whose next hop is left alone (iBGP, RR client, RS client) and with "
+                 "policies without a next-hop action (the session has one local address)",
                  "fewer than 2^24 destinations per shard (the IdAllocator's own debug assertion)"],
 )
 
